@@ -1051,13 +1051,20 @@ def diff_num(a, b):
     return an - bn
 
 
+def _guarded_check(s, timeout_ms):
+    """Plain s.check().  (A watchdog thread calling ctx.interrupt() was tried against z3 calls that overrun their `timeout` inside non-linear
+    preprocessing: the interrupt is ignored there as well, and using the context from a second thread made z3 abort with internal assertion
+    violations.  The sat side of the optimizer-level harnesses runs in a forked child with a hard wall-clock limit instead, see _forked_sat_side.)"""
+    return s.check()
+
+
 def _check(constraints, timeout_ms, aux=False):
     s = z3.Solver()
     s.set("timeout", int(timeout_ms))
     for c in constraints:
         s.add(c)
     t = time.time()
-    r = s.check()
+    r = _guarded_check(s, timeout_ms)
     if str(r) == "unknown" and not aux and CTX.opts.get("cvc5_fallback") and os.environ.get("VERIF_CVC5_FALLBACK", "1") != "0":
         # second back end before giving up (opt-in per check: linear integer queries only -- cvc5 does not honour its time limit inside non-linear
         # real preprocessing): only a refutation (unsat) is taken from it, a sat answer stays inconclusive (no model transfer)
@@ -1066,6 +1073,8 @@ def _check(constraints, timeout_ms, aux=False):
             CTX.stats["decided_by_cvc5"] = CTX.stats.get("decided_by_cvc5", 0) + 1
     dt = time.time() - t
     CTX.stats["solver_s"] += dt
+    if not aux and dt > CTX.stats.get("slowest_query_s", 0.0):
+        CTX.stats["slowest_query_s"] = round(dt, 2)
     if aux:
         CTX.stats["aux_queries"] = CTX.stats.get("aux_queries", 0) + 1
     else:
@@ -1361,10 +1370,30 @@ def prove_equal(label, a, b, info=None):
         ds = d
     # need the path condition / atom definitions (or the terms really differ)
     nz = [z3.simplify(x) for x in _den_nonzero(a, b)]
+    if not same_fp and CTX.opts.get("fork_sat_side", False) and hasattr(os, "fork"):
+        # (opt-in: the optimizer-level harnesses, where no obligation needs the path condition on the unchanged tree -- evidence: discharged_by.with_path_condition = 0)
+        # The fingerprints predict a real difference.  Everything on this side (witness search, the full query, the robust-model query) runs in a forked
+        # child under a hard wall-clock limit: z3 honours neither its `timeout` nor an interrupt inside some non-linear preprocessing (one such query ran
+        # for 20 minutes).  unsat comes back as a verdict, sat as a model, anything else / a killed child as unknown (-> generic-value replay).
+        verdict, model, robust = _forked_sat_side(label, ds, nz, a, b, tmo)
+        if verdict == "unsat":
+            CTX.stats["queries"] += 1
+            CTX.stats["unsat"] += 1
+            CTX.stats["stage3"] += 1
+            return True
+        if verdict == "sat":
+            CTX.stats["queries"] += 1
+            CTX.stats["sat"] += 1
+            rec = _viol(label, None, info, unknown=True)
+            rec["verdict"] = "sat"
+            rec["model"] = model
+            rec["model_is_robust"] = robust
+            raise PathViolation(rec)
+        CTX.stats["queries"] += 1
+        CTX.stats["unknown"] += 1
+        raise PathViolation(_viol(label, None, info, unknown=True))
     if not same_fp:
-        # the fingerprints predict a real difference: look for a witness by fixing the free variables first
-        # (z3's model search through root-defining constraints is slow on the sat side, DESIGN 1.1)
-        w = _search_witness(ds, nz, tries=8)
+        w = _search_witness(ds, nz, tries=6)
         if w is not None:
             CTX.stats["sat"] += 0
             raise PathViolation(_viol(label, w, info, a=a, b=b))
@@ -1375,10 +1404,81 @@ def prove_equal(label, a, b, info=None):
     if r == "sat":
         raise PathViolation(_viol(label, s, info, a=a, b=b))
     if not same_fp:
-        w = _search_witness(ds, nz, tries=12)
+        w = _search_witness(ds, nz, tries=4)
         if w is not None:
             raise PathViolation(_viol(label, w, info, a=a, b=b))
     raise PathViolation(_viol(label, None, info, unknown=True))
+
+
+def _forked_sat_side(label, ds, nz, a, b, tmo):
+    import json as _json
+    import select
+    import signal
+
+    rfd, wfd = os.pipe()
+    t0 = time.time()
+    pid = os.fork()
+    if pid == 0:  # child
+        try:
+            os.close(rfd)
+            out = dict(verdict="unknown")
+            w = _search_witness(ds, nz, tries=6)
+            s_ = w
+            if w is None:
+                r, s2 = _check([ds != 0] + nz + CTX.pc + CTX.defs, tmo)
+                if r == "unsat":
+                    out = dict(verdict="unsat")
+                elif r == "sat":
+                    s_ = s2
+                else:
+                    s_ = _search_witness(ds, nz, tries=4)
+            if s_ is not None:
+                nice = None
+                try:
+                    nice = _nicer_model(s_, a, b)
+                except Exception:
+                    nice = None
+                out = dict(verdict="sat", model=model_values(nice if nice is not None else s_), robust=nice is not None)
+            os.write(wfd, _json.dumps(out, default=str).encode())
+        except BaseException as e:  # noqa: BLE001
+            try:
+                os.write(wfd, _json.dumps(dict(verdict="unknown", error=repr(e)[:200])).encode())
+            except Exception:
+                pass
+        finally:
+            os._exit(0)
+    os.close(wfd)
+    limit = 10 * 3.0 + tmo / 1000.0 + 8.0 + 10.0
+    buf = b""
+    deadline = t0 + limit
+    while True:
+        left = deadline - time.time()
+        if left <= 0:
+            break
+        rl, _, _ = select.select([rfd], [], [], min(left, 1.0))
+        if rl:
+            chunk = os.read(rfd, 1 << 20)
+            if not chunk:
+                break
+            buf += chunk
+    os.close(rfd)
+    try:
+        os.kill(pid, signal.SIGKILL)
+    except OSError:
+        pass
+    try:
+        os.waitpid(pid, 0)
+    except OSError:
+        pass
+    CTX.stats["solver_s"] += time.time() - t0
+    CTX.stats["forked_sat_side"] = CTX.stats.get("forked_sat_side", 0) + 1
+    try:
+        out = _json.loads(buf.decode()) if buf else dict(verdict="unknown")
+    except Exception:
+        out = dict(verdict="unknown")
+    if not buf:
+        CTX.stats["sat_side_killed"] = CTX.stats.get("sat_side_killed", 0) + 1
+    return out.get("verdict", "unknown"), out.get("model"), bool(out.get("robust"))
 
 
 def _den_nonzero(*xs):
@@ -1466,7 +1566,7 @@ def _nicer_model(solver, a, b):
     for c in cons + extra:
         s.add(c)
     t = time.time()
-    r = s.check()
+    r = _guarded_check(s, 8000)
     CTX.stats["solver_s"] += time.time() - t
     return s if r == z3.sat else None
 
